@@ -32,8 +32,18 @@ PROFILE = Profile(name="layout", min_periods=2, max_periods=3, max_disc_states=4
                   p_stoch=0.2, p_aux=0.3, max_disc_size=4, max_points=60_000)
 
 
+# more than 16 variables (many two-label states): orderings that are only stable for short
+# lists show up here
+PROFILE_MANY = Profile(name="many_variables", min_periods=2, max_periods=2, min_disc_states=13, max_disc_states=15,
+                       max_disc_size=2, max_cont_states=1, max_disc_choices=2, max_cont_choices=1,
+                       max_cont_choice_nodes=2, max_cont_state_nodes=2, p_filter=0.3, p_stoch=0.1, p_aux=0.2,
+                       p_table_constraint=0.2, max_points=300_000, max_R=2)
+
+
 def strategy(tier):
-    return st.builds(lambda spec: {"spec": spec.to_json()}, model_specs(PROFILE))
+    base = st.builds(lambda spec: {"spec": spec.to_json()}, model_specs(PROFILE))
+    many = st.builds(lambda spec: {"spec": spec.to_json()}, model_specs(PROFILE_MANY))
+    return st.one_of(*([base] * 15), many)
 
 
 def check(case):
